@@ -85,7 +85,7 @@
 //   - Tabs are not supported for defining block structures; use spaces instead.
 //     Tabs in other context are supported.
 //
-//   - Among HTML entities, only a few are supported: &lt; &gt; &quote; &apos;
+//   - Among HTML entities, only a few are supported: &lt; &gt; &quot; &apos;
 //     &amp;. This is because the full list of HTML entities is very large and
 //     will inflate the binary size.
 //
@@ -184,7 +184,7 @@ var charRefRegexp = regexp.MustCompile(charRefPattern)
 
 var entities = map[string]rune{
 	// Necessary for writing valid HTML
-	"lt": '<', "gt": '>', "quote": '"', "apos": '\'', "amp": '&',
+	"lt": '<', "gt": '>', "quot": '"', "apos": '\'', "amp": '&',
 	// Not strictly necessary, but could be output by FmtCodec for slightly
 	// nicer text
 	"Tab": '\t', "NewLine": '\n', "nbsp": '\u00A0',
@@ -198,16 +198,26 @@ func unescapeHTML(s string) string {
 		} else if body[0] == '#' {
 			if body[1] == 'x' || body[1] == 'X' {
 				if num, err := strconv.ParseInt(body[2:], 16, 32); err == nil {
-					return string(rune(num))
+					return charRefString(num)
 				}
 			} else {
 				if num, err := strconv.ParseInt(body[1:], 10, 32); err == nil {
-					return string(rune(num))
+					return charRefString(num)
 				}
 			}
 		}
 		return entity
 	})
+}
+
+// Converts the number in a numeric character reference to a string. Invalid
+// code points, including 0, are replaced by U+FFFD per
+// https://spec.commonmark.org/0.31.2/#numeric-character-references.
+func charRefString(num int64) string {
+	if num == 0 {
+		return "\uFFFD"
+	}
+	return string(rune(num))
 }
 
 // Codec is used to render output.
